@@ -84,6 +84,8 @@ func (w *c11World) action(f *world.FakeServer, outcome string, t *rapid.T) world
 		return world.Action{Kind: "raw", Raw: append([]byte{200, 0}, make([]byte, 50)...)}
 	case "refusal-byte":
 		return world.Action{Kind: "raw", Raw: []byte{0}}
+	case "stall-then-close":
+		return world.Action{Kind: "stall", StallFor: time.Duration(rapid.IntRange(20, 250).Draw(t, "stallMs")) * time.Millisecond}
 	case "len-lt-72":
 		n := rapid.IntRange(0, 71).Draw(t, "shortLen")
 		return world.Action{Kind: "raw", Raw: world.Frame(rapid.SliceOfN(rapid.Byte(), n, n).Draw(t, "shortBody"))}
@@ -160,7 +162,7 @@ func (w *c11World) action(f *world.FakeServer, outcome string, t *rapid.T) world
 	}
 }
 
-var c11Outcomes = []string{"close", "reset", "short-prefix", "short-body", "refusal-byte", "len-lt-72", "signed-72-711", "signed-large", "random-bytes", "bad-signature", "stale-timestamp", "wrong-device", "bad-entry", "truncated-entry", "valid-ban-other", "valid-unban-attempt", "valid", "valid"}
+var c11Outcomes = []string{"close", "reset", "short-prefix", "short-body", "refusal-byte", "stall-then-close", "len-lt-72", "signed-72-711", "signed-large", "random-bytes", "bad-signature", "stale-timestamp", "wrong-device", "bad-entry", "truncated-entry", "valid-ban-other", "valid-unban-attempt", "valid", "valid"}
 
 func c11Failing(o string) bool {
 	return !strings.HasPrefix(o, "valid")
@@ -565,5 +567,53 @@ func TestC11ResyncAfterFailure(t *testing.T) {
 		time.Sleep(100 * time.Millisecond)
 		ev.NonTrivial(fmt.Sprintf("c11|resync|%v|%d", plan, eligible))
 		ev.Label("c11:resync-case")
+	})
+}
+
+
+// TestC11StalledServer: a server accepts the connection and does not answer
+// for a while. The sync attempt runs in its own goroutine (launched by the
+// client's loop), so the reporting loop must keep emitting readings and the
+// client mutex must stay free while the attempt hangs.
+func TestC11StalledServer(t *testing.T) {
+	ev.Rule("C11(stall): the client's own loop launches a sync round against a server that accepts and stays silent for 0.8-2 s; meanwhile 3-6 ticks with new readings are granted; oracle: every tick emits its reading, the mutex is free during the stall, no panic, and after the stall ends the round fails over / finishes")
+	rapid.Check(t, func(t *rapid.T) {
+		w := newC11World(t, true)
+		defer w.cleanup()
+		if len(w.fakes) == 0 {
+			return
+		}
+		stall := time.Duration(rapid.IntRange(800, 2000).Draw(t, "stallMs")) * time.Millisecond
+		c11Mu.Lock()
+		for _, f := range w.fakes {
+			c11Prep[f] = &c11Prepared{acts: []world.Action{{Kind: "stall", StallFor: stall}}}
+		}
+		c11Mu.Unlock()
+		w.hist = append(w.hist, fmt.Sprintf("every fake server stalls for %v", stall))
+		st := w.c.VerifState()
+		eligible := 0
+		for _, f := range w.fakes {
+			if !st.Servers[glow.PublicKey(f.Key.Pub)].Banned {
+				eligible++
+			}
+		}
+		ev.Eval(1)
+		w.tickEmits() // launches the loop's sync round (old last-sync file)
+		n := rapid.IntRange(3, 6).Draw(t, "ticksDuringStall")
+		for i := 0; i < n; i++ {
+			if !w.c.VerifTryLock() {
+				w.fail("the client mutex is held while a sync attempt waits for a silent server")
+			}
+			w.tickEmits()
+		}
+		if ps := client.VerifPanics(); len(ps) > 0 {
+			w.fail("client goroutine panicked: %s: %s", ps[0].Where, ps[0].Value)
+		}
+		if eligible > 0 {
+			ev.NonTrivial(fmt.Sprintf("c11|stall|%v|%d|%d", stall, eligible, n))
+			ev.Label("c11:stall-case")
+		}
+		// let the stalled attempts end before the fixtures are torn down
+		time.Sleep(stall)
 	})
 }
